@@ -1000,7 +1000,8 @@ def hull_lines(rng, count):
 def check(run):
     run.prove(MODULE, THEOREMS)
     run.source_tie(['SrcColl', 'SrcTime'], 'GeoVerif.Props.C18Src',
-                   ['GV.C18Src.' + t for t in ('filterByDtIval_eq', 'filterByDtInst_eq', 'filterByIntersection_eq', 'filterContainedBy_eq', 'filterContains_eq', 'intersects_eq', 'filterProp_loop_eq', 'filterByProperty_eq', 'bool_eq', 'add_eq', 'src_filterByDt_inst', 'src_filterByDt_ival', 'src_filterByIntersection_exact', 'src_filterContains_exact', 'src_filterContainedBy_exact')])
+                   ['GV.C18Src.' + t for t in ('filterByDtIval_eq', 'filterByDtInst_eq', 'filterByIntersection_eq', 'filterContainedBy_eq', 'filterContains_eq', 'intersects_eq', 'filterProp_loop_eq', 'filterByProperty_eq', 'bool_eq', 'add_eq', 'src_filterByDt_inst', 'src_filterByDt_ival', 'src_filterByIntersection_exact', 'src_filterContains_exact', 'src_filterContainedBy_exact',
+                                                  'contains_eq', 'iter_eq', 'len_eq', 'fcGetIdx_eq', 'fcGetSlice_eq', 'fcEq_eq', 'src_contains_iff', 'src_getIdx', 'src_getSlice', 'src_fcEq_refl')])
     rng = run.rng
 
     def tag(ln, a):
